@@ -239,6 +239,22 @@ fn run_history(topo: &Topo, steps: &[Step], stats: &mut Stats) -> Result<(), Fai
         }
         stats.events += 1;
 
+        // LIFE CYCLE: the connectivity state is `Serialize + Deserialize` engine state (persisted with it, shipped in
+        // audit snapshots): at some points it is replaced by the copy restored from its own JSON, which must equal it,
+        // and the history carries on with the copy (everything below judges the copy)
+        if step.var % 5 == 2 {
+            let before = engine.state.connectivity.clone();
+            let text = serde_json::to_string(&before).map_err(|e| ("connectivity_state_changed_by_persisting_and_restoring", format!("event #{idx} {step:?}: does not serialise: {e}"), idx))?;
+            let back: barter::engine::state::connectivity::ConnectivityStates =
+                serde_json::from_str(&text).map_err(|e| ("connectivity_state_changed_by_persisting_and_restoring", format!("event #{idx} {step:?}: does not deserialise: {e}"), idx))?;
+            stats.checks += 1;
+            if back != before {
+                return Err(("connectivity_state_changed_by_persisting_and_restoring", format!("after event #{idx} {step:?}: restored {back:?} differs from the persisted {before:?}"), idx));
+            }
+            stats.cells.push(format!("lifecycle:state_persisted_and_restored:global_{}", if healthy(before.global) { "H" } else { "R" }));
+            engine.state.connectivity = back;
+        }
+
         // model transition
         let new = !step.k.is_notice();
         let slot = if step.k.is_market() { &mut model[e].0 } else { &mut model[e].1 };
@@ -486,6 +502,8 @@ fn main() {
             "exchanges:3",
             "exchanges:4",
             "exchanges:5",
+            "lifecycle:state_persisted_and_restored:global_H",
+            "lifecycle:state_persisted_and_restored:global_R",
         ] {
             report.require(c);
         }
